@@ -14,7 +14,7 @@ ASSUMPTIONS = ["the differential comparisons are tests (they exhibit failing inp
                "running code by the observed process state"]
 
 HERE = os.path.dirname(os.path.dirname(os.path.abspath(__file__)))
-KINDS = ["stock", "future", "mixed", "t0", "noreinvest", "fail", "analyser"]
+KINDS = ["stock", "future", "mixed", "t0", "noreinvest", "fail", "analyser", "initpos", "rebalance"]
 
 
 def run_job(specs, switches, hashseed):
@@ -36,9 +36,11 @@ def run(ctx):
     n_targets = ctx.n(5, 60)
     jobs = []
     for t in range(n_targets):
-        kind = KINDS[t % 5] if t < 5 else rnd.choice(["stock", "future", "mixed", "t0", "noreinvest", "analyser"])
+        kind = ["stock", "future", "rebalance", "t0", "initpos"][t] if t < 5 else rnd.choice(["stock", "future", "mixed", "t0", "noreinvest", "analyser", "initpos", "rebalance"])
         x = {"seed": rnd.randrange(1, 10 ** 6), "kind": kind}
         hist = [{"seed": rnd.randrange(1, 10 ** 6), "kind": rnd.choice(KINDS)} for _ in range(rnd.randrange(1, 4))]
+        if kind == "initpos":
+            hist = [{"seed": rnd.randrange(1, 10 ** 6), "kind": "future"}, {"seed": rnd.randrange(1, 10 ** 6), "kind": "stock"}]   # directed: a futures-trading run earlier in the process
         if t == 0:
             hist = [{"seed": rnd.randrange(1, 10 ** 6), "kind": "t0"}, {"seed": rnd.randrange(1, 10 ** 6), "kind": "future"}]      # directed: T+0 then futures-only before a default stock run
         h1, h2 = rnd.randrange(1, 1000), rnd.randrange(1000, 2000)
